@@ -25,7 +25,7 @@ REQUIRED = ['qr:square', 'qr:tall', 'qr:wide', 'qr_full:square', 'qr_full:tall',
 
 def cases(tier, seed):
     out = []
-    Ds = [1, 2, 3, 5] if tier == 'quick' else [1, 2, 3, 4, 5, 6, 7]
+    Ds = [1, 2, 3, 5, 6] if tier == 'quick' else [1, 2, 3, 4, 5, 6, 7]
     reps = 1 if tier == 'quick' else 600
 
     def add(kind, **prm):
@@ -55,6 +55,11 @@ def cases(tier, seed):
                     add('cholesky', D=D, n=3, rep=rep, scale=sc); add('lu', D=D, n=3, pivot=True, rep=rep, scale=sc)
                 for sc in (1e-100, 1e-10, 1e8, 1e100):
                     add('eigh', D=D, n=3, split=-1, rep=rep, scale=sc); add('svd', D=D, M=3, N=3, rep=rep, scale=sc); add('svd', D=D, M=4, N=2, rep=rep, scale=sc)
+            if D >= 5:
+                for rep2 in range(2):
+                    add('eigh', D=D, n=3, split=-1, rep=rep, lowdeg='interior', rep2=rep2); add('svd', D=D, M=3, N=3, rep=rep, lowdeg='interior', rep2=rep2)
+                    add('qr', D=D, M=4, N=3, rep=rep, lowdeg='interior', rep2=rep2); add('cholesky', D=D, n=3, rep=rep, lowdeg='interior', rep2=rep2)
+                    add('lu', D=D, n=3, pivot=True, rep=rep, lowdeg='interior', rep2=rep2)
             if D >= 3:
                 for lowdeg in (1, 2):          # A(t) = A0 resp. A0 + A1 t propagated with a larger D: the output is not of low degree
                     add('qr', D=D, M=4, N=3, rep=rep, lowdeg=lowdeg); add('qr_full', D=D, M=3, N=3, rep=rep, lowdeg=lowdeg)
@@ -102,11 +107,17 @@ def _series(rng, D, P, M, N, base, scale=0.5):
     x = scale * rng.normal(size=(D, P, M, N))
     for p in range(P):
         x[0, p] = base()
-    if _LOWDEG:
+    if _LOWDEG == 'interior':
+        x[int(rng.integers(1, max(2, D - 1)))] = 0.0          # A0 + A2 t^2 + ...: one interior coefficient vanishes identically, later ones do not
+    elif _LOWDEG:
         x[min(_LOWDEG, D):] = 0.0              # the input is a polynomial of lower degree than the truncation degree (A0 + A1 t, ...)
     elif D >= 3 and rng.random() < 0.15:
         x[int(rng.integers(1, D)):] = 0.0
-    if P >= 3 and rng.random() < 0.4:
+    if P >= 2 and rng.random() < 0.25:
+        # neighbouring base points: the other directions start within 1e-7 ... 1e-13 (relative) of direction 0 without being equal to it
+        for p in range(1, P):
+            x[0, p] = x[0, 0] * (1.0 + 10.0 ** -float(rng.integers(7, 14)) * rng.normal(size=x[0, 0].shape))
+    elif P >= 3 and rng.random() < 0.4:
         x[0, P - 1] = x[0, 0]              # the same base point again after a different one (X, Y, X): only the higher coefficients differ
     elif P >= 2 and rng.random() < 0.2:
         x[0, 1] = x[0, 0]
